@@ -6,7 +6,8 @@ Definition obs_of (s : state) : sobs :=
   mkSObs 0 (height s) (proj_ctxs s) (nq s) (xq s) (nmark s) (xmark s).
 
 Definition cproj (c : rctx) : cobs :=
-  ((cstate_code (c_state c), c_done c, c_counter c), (c_timeout c, c_freq c, c_total c), (c_reqs c, c_resps c)).
+  ((cstate_code (c_state c), c_done c, c_counter c), (c_timeout c, c_freq c, c_total c), (c_reqs c, c_resps c),
+   (c_module c, c_nprov c, c_thr c, c_bthr c, c_outs c)).
 
 Lemma get_proj id s : get id (proj_ctxs s) = option_map cproj (get id (ctxs s)).
 Proof.
@@ -38,7 +39,7 @@ Proof.
     intros id e Hg. apply (s_ctx s Q). right. congruence.
   - apply forallb_forall. intros [id e] Hin. pose proof (In_get _ _ _ (s_kn s Q) Hin) as Hg.
     unfold has. rewrite (s_excl s Q _ _ Hg). reflexivity.
-  - apply forallb_forall. intros [id [[[[st d] cnt] [[t f] n]] [rq rs]]] Hin.
+  - apply forallb_forall. intros [id [[[[[st d] cnt] [[t f] n]] [rq rs]] mm]] Hin.
     unfold proj_ctxs in Hin. apply in_map_iff in Hin. destruct Hin as ([i c] & Heq & Hin). inversion Heq; subst.
     pose proof (In_get _ _ _ (s_kc s Q) Hin) as Hg.
     destruct (c_state c) eqn:Hst; simpl; try reflexivity.
